@@ -287,6 +287,10 @@ func c16Site(kind, msg string) string {
 		return "cron"
 	case strings.HasPrefix(msg, "URI for Docker container"):
 		return "docker-uri"
+	case strings.HasPrefix(msg, "shellcheck reported issue in this script"):
+		return "shellcheck-message"
+	case strings.HasPrefix(msg, "pyflakes reported issue in this script"):
+		return "pyflakes-message"
 	}
 	return kind + ":" + slug
 }
@@ -336,9 +340,11 @@ func c16JSONRT(s string) string {
 // the oracle
 
 type c16Checker struct {
-	c       *Case
-	m       *c16Matcher
-	tag     string
+	c                    *Case
+	m                    *c16Matcher
+	tag                  string
+	shellcheck, pyflakes string // external tool executables ("" = disabled), family tool-messages
+
 	scrub   string // scratch directory, removed from messages before they are used as coverage keys
 	local   map[string]int
 	sets    map[string]map[string]struct{}
@@ -692,7 +698,7 @@ func (k *c16Checker) lintAllModes(src, cfgPath, cfgText string) []*actionlint.Er
 	}
 	var first []*actionlint.Error
 	for mi, md := range c16Modes {
-		opts := &actionlint.LinterOptions{Oneline: md.oneline, Format: md.format, ConfigFile: cfgPath}
+		opts := &actionlint.LinterOptions{Oneline: md.oneline, Format: md.format, ConfigFile: cfgPath, Shellcheck: k.shellcheck, Pyflakes: k.pyflakes}
 		errs, out, err := lintSrcOut(src, opts)
 		c.Eval(1)
 		if err != nil {
@@ -1222,6 +1228,8 @@ func runC16(r *Run) {
 
 	fams = append(fams, &Family{Name: "project", N: r.Q(800, 20000), Do: func(c *Case) { c16ProjectCase(c, m, scratch) }})
 
+	fams = append(fams, &Family{Name: "tool-messages", N: r.Q(240, 6000), Do: func(c *Case) { c16ToolCase(c, m) }})
+
 	fams = append(fams, &Family{Name: "renderer-fuzz", N: r.Q(100, 10000), Do: func(c *Case) {
 		k := &c16Checker{c: c, m: m, tag: "renderer-fuzz", pfx: "fuzz_"}
 		f, err := actionlint.NewErrorFormatter("{{json .}}")
@@ -1265,6 +1273,14 @@ func runC16(r *Run) {
 		floor("cli_color_headers_parsed_back", int64(r.Q(50, 1000)))
 		floor("corpus_cases", 100)
 		floor("project_cases_linted", int64(r.Q(600, 15000)))
+		floor("tool_shellcheck_diagnostics", int64(r.Q(150, 4000)))
+		floor("tool_pyflakes_diagnostics", int64(r.Q(150, 4000)))
+		floor("tool_headers_parsed_back", int64(r.Q(200, 5000)))
+		for _, t := range []string{"shellcheck", "pyflakes"} {
+			if n := r.SetLen("tool_" + t + "_message_indexes"); n < c16ToolMsgCount {
+				r.Inconclusive(fmt.Sprintf("coverage floor not met: only %d of the %d nasty tool messages reached a %s diagnostic", n, c16ToolMsgCount, t))
+			}
+		}
 		for i := range c16RequiredSites {
 			floor("site_"+c16RequiredSites[i].name, int64(r.Q(1, 25)))
 		}
